@@ -122,7 +122,7 @@ class PhaseMonitor:
 
     def on_error(self, pre, ms, ev, exc, ctx):
         from ..explore import exc_signature, error_shape
-        sig = exc_signature(exc) + (error_shape(ctx.cfg, list(ctx.path) + [ev]),)
+        sig = exc_signature(exc) + (error_shape(ctx.cfg, list(ctx.path) + [ev], pre, ev),)
         ctx.violation('legal-operation-raised',
                       f'{ev} was available (query said yes) but raised {type(exc).__name__}: {exc} at {sig[1]}: {sig[2]}',
                       path=list(ctx.path) + [ev], sig=(self.prop, 'raised') + sig)
